@@ -11,7 +11,8 @@ LEVEL_TEXT = ("Lean theorems about the merge model in diff mode: every definitio
               "(partial; witness theorem for finding D10). The model is tied to /repo by a correspondence run of fetch(diff=True) "
               "and of the re-merge; the oracle evaluates the four clauses of the statement on the implementation, incl. the "
               "printed/re-parsed difference.")
-LEVEL_NOTE = "partial on the unchanged tree: D10 (re-merge reorders a master-provided instance) and nested multiples (D8 class)."
+LEVEL_NOTE = ("closed form (diff, minimality, restore, fixed point) proved for flat masters; findings on the unchanged tree: D10 "
+              "(re-merge reorders a master-provided instance), D42 (floats equal to ten significant digits).")
 TECHNIQUE = "Lean 4 theorems on the diff-mode fetch model (minimality, self-diff empty, restore partial) + differential correspondence + oracle"
 RULE = ("masters x working parameter sets reachable by fetch from generated sources (added, repeated and template-equal instances of "
         ".multiple objects, choices, Auto/None, non-canonical spellings); non-trivial = the difference is non-empty")
